@@ -1,5 +1,5 @@
 """C10 - posterior-sample collections persist exactly and keep chain-major order."""
-from .common import cli_main, all_same, all_eq, concrete_screen, flat
+from .common import cli_main, cli_argv, all_same, all_eq, concrete_screen, flat
 
 PROPERTY = "C10"
 LEVEL = "model_checking"
@@ -7,7 +7,7 @@ FUNCTIONS = [
     "batchie.core.ThetaHolder.__init__/add_theta/get_theta/combine/concat/save_h5/load_h5/is_complete",
     "batchie.models.sparse_combo.SparseDrugComboMCMCSample.private_parameters_dict / from_dicts",
     "batchie.models.sparse_combo_interaction.SparseDrugComboInteractionMCMCSample.private_parameters_dict / shared_parameters_dict / from_dicts",
-    "batchie.cli.evaluate_model.main (argument parser stubbed)",
+    "batchie.cli.evaluate_model.main (through get_parser / get_args with sys.argv set; class lookup by name answered from the loaded modules)",
     "batchie.models.main.predict_viability_all / ModelEvaluation.save_h5 / load_h5",
 ]
 BOUNDS = {
@@ -243,7 +243,7 @@ def h_evaluate(ctx, cfg):
     screen.save_h5(sfn)
     order = _order(ctx, len(lens))
     out = ctx.tmp("me.h5")
-    cli_main(ctx, "batchie.cli.evaluate_model", screen=sfn, thetas=[files[c] for c in order], output=out, seed=0)
+    cli_argv(ctx, "batchie.cli.evaluate_model", ["--screen", sfn, "--thetas"] + [files[c] for c in order] + ["--output", out])
     me = mm.ModelEvaluation.load_h5(out)
     preds = me.predictions.tolist()
     chain_ids = me.chain_ids.tolist()
